@@ -314,6 +314,12 @@ impl Reader {
 					)));
 				}
 
+				// The record is obeyed (and skipped) below: check it like any other record first
+				let meta = &self.buffer[self.buffer_offset..self.buffer_offset + length as usize];
+				if calculate_crc32(&[type_byte], meta) != crc {
+					return Err(Error::IO(IOError::new(io::ErrorKind::Other, "checksum mismatch")));
+				}
+
 				// Parse and store compression type
 				if length > 0 {
 					let compression_byte = self.buffer[self.buffer_offset];
